@@ -76,7 +76,7 @@ def wellformed(meta, version):
 
 
 def small_tree(rng, pl, single=False):
-    if rng.random() < 0.08:
+    if rng.random() < 0.15:
         # many pieces: > 102 v1 pieces, > 64 pieces in one file
         from harness.common import Blob
         big = ("big.bin", Blob.rand(rng.randrange(1, 40), 110 * pl + rng.choice([0, 1, 777])))
